@@ -5,7 +5,8 @@ set -e
 H=$1; V=${2:-P}
 ROOT=/verif
 REPO=${XSIM_REPO:-/repo}
-mkdir -p $ROOT/build/cache $ROOT/bin
+BINDIR=${XSIM_SCRATCH:-$ROOT}/bin
+mkdir -p $ROOT/build/cache $BINDIR
 CXX=g++
 RTFLAGS="-std=c++17 -O2 -g -fno-omit-frame-pointer -fno-exceptions -ftls-model=initial-exec -fno-pie"
 HFLAGS="-std=c++17 -O1 -fno-inline -fno-omit-frame-pointer -g -fsanitize=thread --param tsan-instrument-func-entry-exit=0 -DXENIUM_VERIF -fno-pie -Wno-tsan -Wno-cpp -I$REPO -I$ROOT/xsim -I$ROOT/harness"
@@ -23,8 +24,8 @@ if [ ! -f $OBJ ]; then
   $CXX $HFLAGS -c $ROOT/harness/$H.cpp -o $OBJ.tmp.$$ || exit 2
   mv $OBJ.tmp.$$ $OBJ
 fi
-BIN=$ROOT/bin/$H.$V
-STAMP=$ROOT/build/cache/$H-$V.link
+BIN=$BINDIR/$H.$V
+STAMP=$BIN.link
 if [ ! -f $BIN ] || [ "$(cat $STAMP 2>/dev/null)" != "$rt_hash-$src_hash-r1" ]; then
   $CXX -no-pie -rdynamic $OBJ $RT -o $BIN.tmp.$$ -lpthread -ldl $WRAP || exit 2
   mv $BIN.tmp.$$ $BIN
